@@ -235,6 +235,8 @@ func (c c01) lineages(ctx *core.Ctx, cfgs []dbCfg, all bool) {
 	}
 	// a second large value for a: two large (unselected) tables that hold different values of one key
 	topts = append(topts, dbOp{Op: "putrot", K: 0, V: 3})
+	// a tombstone for the empty key (Delete accepts it) in a table of its own
+	topts = append(topts, dbOp{Op: "delrot", K: dbEmptyKey})
 	nwords := 0
 	var words func(cur []dbOp, tUsed, cUsed int)
 	words = func(cur []dbOp, tUsed, cUsed int) {
@@ -255,7 +257,27 @@ func (c c01) lineages(ctx *core.Ctx, cfgs []dbCfg, all bool) {
 			ntHere = nt - 1 // thorough: histories with a third cycle use one table less
 		}
 		if tUsed < ntHere {
+			special := 0
+			for _, c := range cur {
+				if (c.Op == "putrot" && c.V == 3) || (c.Op == "delrot" && c.K == dbEmptyKey) {
+					special++
+				}
+			}
 			for _, o := range topts {
+				// the two special tables (second large value, empty-key tombstone) appear at most once per history, and only
+				// among the first three tables - except the second large value as the fourth table of a single-cycle history
+				isW := o.Op == "putrot" && o.V == 3
+				isE := o.Op == "delrot" && o.K == dbEmptyKey
+				if (isW || isE) && ctx.Tier != "thorough" {
+					if special > 0 {
+						continue
+					}
+					if tUsed+1 > 3 && !(isW && cUsed == 0) {
+						continue
+					}
+				} else if (isW || isE) && special > 0 {
+					continue
+				}
 				words(append(cur, o), tUsed+1, cUsed)
 			}
 		}
